@@ -140,17 +140,8 @@ mutual
           refine ⟨?_, by simp⟩
           simp only [EInv] at *
           rw [← omin_assoc, hi]
-        · -- evalInPlace
-          split at he
-          · cases he
-          · injection he with he; subst he
-            injection h with h; subst h
-            rename_i hpf
-            have hpn := hp (by simpa using hpf)
-            refine ⟨?_, by simp⟩
-            simp only [EInv] at *
-            rw [hpn, omin_none_right] at hi
-            rw [hi]
+        · -- evalInPlace: refused by the analysis
+          cases he
         · -- update
           split at he
           · rename_i hsh
